@@ -6,7 +6,7 @@
 #include <unistd.h>
 #include <carquet/carquet.h>
 
-enum { MAXC = 6, MAXSTEP = 64 };
+enum { MAXC = 18, MAXSTEP = 320 };
 typedef struct { char name[16]; int rep, ptype, tlen; } fcol;
 typedef struct {
     int kind;            /* 0 batch, 1 new row group */
@@ -122,15 +122,31 @@ __attribute__((unused)) static void gen_case(hctx* h, fcase* fc, int small) {
     switch (h_below(h, 5)) { case 0: fc->page = 1; break; case 1: fc->page = 64 + (long)h_below(h, 64); break; case 2: fc->page = 100 + (long)h_below(h, 400); break; case 3: fc->page = 4096; break; default: fc->page = 1024 * 1024; break; }
     int nrg = 1 + (int)h_below(h, 3);
     if (h_chance(h, 1, 25)) nrg = 0;
+    /* boundary-directed at Thrift list lengths around 15 (short vs long list header): the schema list has
+     * ncols+1 elements, each row group ncols chunks, the file nrg row groups */
+    int wide = !small && h_chance(h, 1, 12), longf = !small && !wide && h_chance(h, 1, 12);
+    if (wide) {
+        fc->ncols = 13 + (int)h_below(h, 4);
+        for (int i = 0; i < fc->ncols; i++) {
+            snprintf(fc->cols[i].name, sizeof fc->cols[i].name, "c%d", i);
+            fc->cols[i].rep = (int)h_below(h, 2);
+            fc->cols[i].ptype = types[h_below(h, 7)];
+            if (getenv("VERIF_FILE_NO_BYTE_ARRAY") && fc->cols[i].ptype == 6) fc->cols[i].ptype = 2;
+            fc->cols[i].tlen = fc->cols[i].ptype == 7 ? 1 + (int)h_below(h, 9) : 0;
+        }
+        nrg = 1 + (int)h_below(h, 2);
+    }
+    if (longf) { nrg = 14 + (int)h_below(h, 3); if (fc->ncols > 2) fc->ncols = 2; }
     int ns = 0;
     for (int g = 0; g < nrg; g++) {
         int rows = small ? (int)h_below(h, 14) : (int)h_below(h, h_chance(h, 1, 4) ? 200 : 40);
+        if (wide || longf) rows = 1 + (int)h_below(h, 5);
         if (h_chance(h, 1, 15)) rows = 0;
         /* per column: a null pattern over `rows`, split into batches; batches of different columns interleaved column by column */
         for (int c = 0; c < fc->ncols; c++) {
             int pat = (int)h_below(h, 6);
             int left = rows;
-            int nb = 1 + (int)h_below(h, 4);
+            int nb = (wide || longf) ? 1 : 1 + (int)h_below(h, 4);
             for (int b = 0; b < nb && ns < MAXSTEP - 4; b++) {
                 int take = (b == nb - 1) ? left : (int)h_below(h, (uint64_t)left + 1);
                 if (take == 0 && !(rows == 0 && b == nb - 1) && !h_chance(h, 1, 6)) continue;
